@@ -5,7 +5,7 @@ def cstr(s):
     b = s.encode('utf-8', 'surrogateescape') if isinstance(s, str) else bytes(s)
     if all(32 <= c <= 126 for c in b):
         return '"' + b.decode('ascii').replace('"', '""') + '"'
-    return '(bs [' + ';'.join(str(c) for c in b) + '])'
+    return '(bs [' + ';'.join(str(c) for c in b) + ']%nat)'
 
 def cbytes(b):
     """Coq `list Z` term for bytes."""
